@@ -1169,3 +1169,20 @@ for _p in ("C14", "C20"):
     add(_p, "benign-manifest-read-handler-lists-valueerror", RQW,
         [("                return f.readlines()\n        except Exception:", "                return f.readlines()\n        except (OSError, ValueError):")],
         "silent")
+
+SARIFS = "codemodder/sarifs.py"
+add("C17", "sarif-list-pruned-in-place-by-the-tool-detection", CM,
+    [("            [Path(name) for name in argv.sarif or []]\n", "            argv.sarif or []\n")],
+    "fire", "R-CLI-NAMESPACE-FROZEN", "arg:sarif",
+    extra_files={SARIFS: [("    for fname in filenames:\n        data = json.loads(fname.read_text(encoding=\"utf-8-sig\"))", "    for fname in list(filenames):\n        fname = Path(fname)\n        if not fname.suffix:\n            filenames.remove(fname)\n            continue\n        data = json.loads(fname.read_text(encoding=\"utf-8-sig\"))")]})
+add("C17", "benign-sarif-list-handed-over-and-only-read", CM,
+    [("            [Path(name) for name in argv.sarif or []]\n", "            argv.sarif or []\n")],
+    "silent",
+    extra_files={SARIFS: [("    for fname in filenames:\n        data = json.loads(fname.read_text(encoding=\"utf-8-sig\"))", "    for fname in filenames:\n        fname = Path(fname)\n        data = json.loads(fname.read_text(encoding=\"utf-8-sig\"))")]})
+DDR = "core_codemods/defectdojo/results.py"
+for _p in ("C09", "C11"):
+    add(_p, "defectdojo-rule-interned-per-title-and-renamed-by-tuple-assignment", DDR,
+        [("                rule=Rule(\n                    # TODO: it's possible that these fields actually come from the codemod and not the result\n                    id=str(result[\"title\"]),\n                    name=str(result[\"title\"]),\n                    url=None,\n                ),", "                rule=_rule_from_title(str(result[\"title\"])),"),
+         ("class DefectDojoResult(SASTResult):", "@cache\ndef _rule_from_title(title: str) -> Rule:\n    return Rule(id=title, name=title, url=None)\n\n\nclass DefectDojoResult(SASTResult):")],
+        "fire", "R-FINDING-OWNS-RULE", "rule-object-per-finding",
+        extra_files={"codemodder/utils/update_finding_metadata.py": [("                    finding.rule.name = tool_rule_map[finding.id][0]\n                    finding.rule.url = tool_rule_map[finding.id][1]", "                    finding.rule.name, finding.rule.url = tool_rule_map[finding.id]")]})
